@@ -26,7 +26,7 @@ class C07(Prop):
 
     def plan(self, tier):
         if tier == "quick":
-            return {"units": 8000, "budget_s": 90, "block": 30}
+            return {"units": 6000, "budget_s": 90, "block": 30}
         return {"units": 300000, "budget_s": 1500, "block": 60}
 
     def read_call(self, rng, stack, keys):
